@@ -154,3 +154,55 @@ def flag_guarded(body, bb, flag_pred, value=True):
             if body.edge_guards(e, bb):
                 return True
     return False
+
+
+def result_edges(body, call_site):
+    """For a call returning Result<_, _>: the CFG edges taken when the result is Ok / Err,
+    recognising `?` (Try::branch + discriminant switch), `match`/`if let` on the result and
+    `is_ok()/is_err()` tests.  Returns (ok_edges, err_edges)."""
+    dest = call_site.node["dest"]
+    if dest["p"]:
+        return [], []
+    carriers = {dest["l"]: "result"}
+    # values derived by moves and by Try::branch
+    changed = True
+    while changed:
+        changed = False
+        for site, st in body.assigns():
+            if st["rv"]["k"] == "use":
+                l = op_local(st["rv"]["op"])
+                if l in carriers and not st["place"]["p"] and st["place"]["l"] not in carriers:
+                    carriers[st["place"]["l"]] = carriers[l]
+                    changed = True
+        for s in body.calls():
+            cn = strip_generics(s.node.get("callee") or "")
+            if cn.endswith("::branch") and s.node["args"]:
+                l = op_local(s.node["args"][0])
+                if l in carriers and carriers[l] == "result" and not s.node["dest"]["p"] and s.node["dest"]["l"] not in carriers:
+                    carriers[s.node["dest"]["l"]] = "controlflow"
+                    changed = True
+    ok, err = [], []
+    for T in all_tests(body):
+        if T.kind == "discr" and not T.place["p"] and T.place["l"] in carriers:
+            # Result: Ok=0, Err=1 ; ControlFlow: Continue=0, Break=1
+            e0 = T.variant_edges.get(0)
+            e1 = T.variant_edges.get(1)
+            if e0 is None and e1 is not None:
+                e0 = (T.bb, T.otherwise)
+            if e1 is None and e0 is not None:
+                e1 = (T.bb, T.otherwise)
+            if e0:
+                ok.append(e0)
+            if e1:
+                err.append(e1)
+        elif T.kind == "call" and T.callee.endswith(("::is_ok", "::is_err")):
+            l = borrowed_local(body, T.args[0])
+            if l in carriers:
+                if T.callee.endswith("is_ok"):
+                    ok.append(T.true_edge)
+                    err.append(T.false_edge)
+                else:
+                    ok.append(T.false_edge)
+                    err.append(T.true_edge)
+    # drop-elaboration re-tests of the discriminant (both arms re-join) are harmless extras
+    return ok, err
